@@ -41,6 +41,10 @@ type CLIOpts struct {
 	Files   map[string][]byte // created in the private directory before the run
 	Timeout time.Duration
 	KeepDir bool
+	// MemLimitKB caps the subprocess's virtual memory (ulimit -v); 0 = the
+	// default of 4 GiB. A blow-up then ends in a Go "fatal error: out of memory"
+	// in the child instead of endangering the machine.
+	MemLimitKB int64
 }
 
 // CLI runs the binary in a private directory with a scrubbed environment.
@@ -70,7 +74,11 @@ func CLI(o CLIOpts) (*CLIResult, error) {
 	}
 	ctx, cancel := context.WithTimeout(context.Background(), o.Timeout)
 	defer cancel()
-	cmd := exec.CommandContext(ctx, bin, o.Args...)
+	if o.MemLimitKB == 0 {
+		o.MemLimitKB = 4 << 20
+	}
+	shArgs := append([]string{"-c", fmt.Sprintf("ulimit -v %d; exec \"$0\" \"$@\"", o.MemLimitKB), bin}, o.Args...)
+	cmd := exec.CommandContext(ctx, "/bin/sh", shArgs...)
 	cmd.Dir = dir
 	cmd.Env = []string{"PATH=/usr/bin:/bin", "HOME=" + dir, "LANG=C"}
 	cmd.Stdin = bytes.NewReader(o.Stdin)
